@@ -15,6 +15,7 @@ import (
 	"fmt"
 	"go/types"
 	"os"
+	"path/filepath"
 	"runtime"
 	"runtime/debug"
 	"sort"
@@ -132,6 +133,9 @@ func runProperty(id string, pc propCheck, tier, repo, verif string, seed int64, 
 			code = 2
 		}
 	}()
+	// the engine fixture (DESIGN.md 2.4) is analysed while the library loads
+	fixCh := make(chan fixtureResult, 1)
+	go func() { fixCh <- engineFixture(selfDir(verif)) }()
 	configs := []buildConfig{{"linux", "amd64"}}
 	if tier == "thorough" && pc.configs {
 		configs = thoroughConfigs
@@ -159,6 +163,14 @@ func runProperty(id string, pc propCheck, tier, repo, verif string, seed int64, 
 		c = nil
 		runtime.GC()
 	}
+	fix := <-fixCh
+	if len(fix.Failures) > 0 {
+		for _, f := range fix.Failures {
+			fmt.Printf("ERROR selftest: engine fixture: %s\n", f)
+		}
+		return 2
+	}
+	merged.Infos["engine_fixture"] = fix
 	if tier == "thorough" {
 		selftestInto(merged, id, repo, verif)
 	}
@@ -177,6 +189,22 @@ func runProperty(id string, pc propCheck, tier, repo, verif string, seed int64, 
 	}
 	return merged.Finish(verif, repo, stats, cfgNames, time.Since(t0), seed, nil)
 }
+
+// selfDir: the directory that holds the checker's own sources (the engine fixture), independent
+// of where evidence is written.
+func selfDir(verif string) string {
+	if d := os.Getenv("WLCHECK_HOME"); d != "" {
+		return d
+	}
+	if exe, err := os.Executable(); err == nil {
+		if d := filepath.Dir(filepath.Dir(exe)); fileExists(filepath.Join(d, "checker", "fixture", "go.mod")) {
+			return d
+		}
+	}
+	return verif
+}
+
+func fileExists(p string) bool { _, err := os.Stat(p); return err == nil }
 
 func rank(s State) int {
 	switch s {
